@@ -4,13 +4,17 @@ set -e
 cd "$(dirname "$0")"
 mkdir -p .build evidence
 python3 tools/genmain.py
-(cd lean && lake build)
 python3 - <<'PY'
 import sys, os
 sys.path.insert(0, os.getcwd())
 from vlib import core
 with core.Lock():
     core.build_extract()
-    core.build_impl()
-print("setup ok")
+    try:
+        core.run_t4(sorted(f[:-5] for f in os.listdir("tools/t4") if f.endswith(".json")))
+    except core.Broken as b:
+        print("setup: T4:", b.what)   # reported per property by the checks
+    core.build_impl(True)
 PY
+(cd lean && lake build)
+echo "setup ok"
